@@ -365,6 +365,68 @@ func c11globals(c *an.Ctx, gs []guarded) {
 					return true
 				})
 			}
+			// a map, slice or pointer that is handed out as a value (assigned, passed, returned, stored) can be
+			// written through the alias: "never written by name" is then no guarantee
+			var escPos token.Pos
+			var escWho string
+			switch v.Type().Underlying().(type) {
+			case *types.Map, *types.Slice, *types.Pointer:
+				for _, f := range p.Units() {
+					if f.Pkg != pk || f.Body == nil || escPos.IsValid() {
+						continue
+					}
+					if f.Root().Decl != nil && f.Root().Decl.Name.Name == "init" && f.Root().Decl.Recv == nil && f.Lit == nil {
+						continue
+					}
+					info := f.Info()
+					var stack []ast.Node
+					ast.Inspect(f.Body, func(nd ast.Node) bool {
+						if nd == nil {
+							stack = stack[:len(stack)-1]
+							return true
+						}
+						stack = append(stack, nd)
+						id, ok := nd.(*ast.Ident)
+						if !ok || an.ObjOf(info, id) != types.Object(v) || len(stack) < 2 || escPos.IsValid() {
+							return true
+						}
+						switch par := stack[len(stack)-2].(type) {
+						case *ast.IndexExpr:
+							if par.X == ast.Expr(id) {
+								return true
+							}
+						case *ast.SelectorExpr:
+							return true
+						case *ast.RangeStmt:
+							if par.X == ast.Expr(id) {
+								return true
+							}
+						case *ast.CallExpr:
+							if an.IsCallTo(info, par, "builtin.len", "builtin.cap", "builtin.delete") {
+								return true
+							}
+						case *ast.BinaryExpr:
+							if par.Op == token.EQL || par.Op == token.NEQ {
+								return true // compared with nil
+							}
+						case *ast.AssignStmt:
+							for _, l := range par.Lhs {
+								if l == ast.Expr(id) {
+									return true // assigned to (counted as a write above)
+								}
+							}
+						case *ast.StarExpr, *ast.UnaryExpr:
+							return true
+						}
+						escPos, escWho = id.Pos(), f.Name
+						return true
+					})
+				}
+			}
+			if escPos.IsValid() && !isGuarded["var:"+name] {
+				c.Bad("C11.globals", key+"/escapes", escPos, nil, "package-level %s (a %s) is handed out as a value by %s at run time: whatever receives it shares one object with every other execution, and a write through that alias is a write to process-wide state", key, tn, escWho)
+				continue
+			}
 			switch {
 			case !where.IsValid():
 				c.OK("C11.globals", key, v.Pos(), "never written outside its declaration / init (immutable after initialisation)")
